@@ -122,7 +122,10 @@ impl Strategy {
         match state_next {
             LeapfrogResult::Ok(_) => {}
             LeapfrogResult::Err(err) => return Err(NutsError::LogpFailure(err.into())),
-            LeapfrogResult::Divergence(_) => return Ok(()),
+            LeapfrogResult::Divergence(_) => {
+                self.restart_adaptation(self.options.initial_step);
+                return Ok(());
+            }
         }
 
         let accept_stat = collector.mean.current();
@@ -149,6 +152,7 @@ impl Strategy {
                 LeapfrogResult::Err(err) => return Err(NutsError::LogpFailure(err.into())),
                 LeapfrogResult::Divergence(_) => {
                     *hamiltonian.step_size_mut() = self.options.initial_step;
+                    self.restart_adaptation(self.options.initial_step);
                     return Ok(());
                 }
             }
@@ -201,7 +205,22 @@ impl Strategy {
         }
         // If we don't find something better, use the specified initial value
         *hamiltonian.step_size_mut() = self.options.initial_step;
+        self.restart_adaptation(self.options.initial_step);
         Ok(())
+    }
+
+    /// Restart the adaptation from `step_size`, so that the averaged step size agrees with
+    /// the step size that a failed search falls back to.
+    fn restart_adaptation(&mut self, step_size: f64) {
+        match self.adaptation.as_mut() {
+            None => {}
+            Some(Either::Left(adapt)) => {
+                *adapt = DualAverage::new(self.options.adapt_options.dual_average, step_size);
+            }
+            Some(Either::Right(adapt)) => {
+                *adapt = Adam::new(self.options.adapt_options.adam, step_size);
+            }
+        }
     }
 
     pub fn update(&mut self, collector: &AcceptanceRateCollector) {
